@@ -281,9 +281,16 @@ class Molecule(BigSMILESbase):
 
                 # Smiles token to smiles token
                 if isinstance(element, SmilesToken) and isinstance(next_element, SmilesToken):
+                    # The token is entered through one of its compatible descriptors, chosen by weight.
+                    total_weight = 0
                     for other_bd in next_element.bond_descriptors:
                         if graph_bd.is_compatible(other_bd):
-                            G.add_edge(graph_bd, other_bd, trans_prob=1.0)
+                            total_weight += other_bd.weight
+                    for other_bd in next_element.bond_descriptors:
+                        if graph_bd.is_compatible(other_bd) and other_bd.weight > 0:
+                            G.add_edge(
+                                graph_bd, other_bd, trans_prob=other_bd.weight / total_weight
+                            )
 
                 if isinstance(element, SmilesToken) and isinstance(next_element, Stochastic):
                     total_weight = 0
@@ -308,6 +315,11 @@ class Molecule(BigSMILESbase):
                             )
 
                 if isinstance(element, Stochastic) and isinstance(next_element, SmilesToken):
+                    # The token is entered through one of its compatible descriptors, chosen by weight.
+                    total_weight = 0
+                    for other_bd in next_element.bond_descriptors:
+                        if graph_bd.is_compatible(other_bd):
+                            total_weight += other_bd.weight
                     for other_bd in next_element.bond_descriptors:
                         if (
                             graph_bd.is_compatible(other_bd)
@@ -315,7 +327,9 @@ class Molecule(BigSMILESbase):
                             and bond_descriptors[graph_bd] in element.repeat_tokens
                             and other_bd.weight > 0
                         ):
-                            G.add_edge(graph_bd, other_bd, trans_prob=1.0)
+                            G.add_edge(
+                                graph_bd, other_bd, trans_prob=other_bd.weight / total_weight
+                            )
 
                 if isinstance(element, Stochastic) and isinstance(next_element, Stochastic):
                     total_weight = 0
